@@ -272,7 +272,7 @@ def n_op(m):
 
 
 @st.composite
-def valid_symm_candidates(draw, sites, kinds_allowed=("N", "Sz", "site", "orbital", "linear", "single", "packed")):
+def valid_symm_candidates(draw, sites, kinds_allowed=("N", "Sz", "site", "orbital", "linear", "single")):
     """candidate integrals of motion that are diagonal in the Fock basis.  Whether each is accepted depends
     on the Hamiltonian; linear ones with dyadic coefficients give exact quantum numbers."""
     modes = modes_of(sites)
@@ -326,7 +326,7 @@ def valid_symm_candidates(draw, sites, kinds_allowed=("N", "Sz", "site", "orbita
 
 
 @st.composite
-def symm_st(draw, sites, modes=("default", "ignore", "custom"), kinds=("N", "Sz", "site", "orbital", "linear", "single", "packed")):
+def symm_st(draw, sites, modes=("default", "ignore", "custom"), kinds=("N", "Sz", "site", "orbital", "linear", "single")):
     mode = draw(st.sampled_from(list(modes)))
     if mode == "custom":
         return {"mode": "custom", "ops": draw(valid_symm_candidates(sites, kinds))}
@@ -336,7 +336,7 @@ def symm_st(draw, sites, modes=("default", "ignore", "custom"), kinds=("N", "Sz"
 @st.composite
 def model_st(draw, cplx=None, max_modes=6, max_sites=4, beta_lo=0.1, beta_hi=200.0, symm_modes=("default", "ignore", "custom"),
              preset_share=0.5, spins=(1, 2, 3), orbitals=(1, 2, 3), max_pieces=6, raw_kinds=None, presets=None,
-             order_spins=(0, 0, 1), min_sites=1, symm_kinds=("N", "Sz", "site", "orbital", "linear", "single", "packed")):
+             order_spins=(0, 0, 1), min_sites=1, symm_kinds=("N", "Sz", "site", "orbital", "linear", "single")):
     if cplx is None:
         cplx = draw(st.booleans())
     sites = draw(sites_st(max_modes=max_modes, max_sites=max_sites, spins=spins, orbitals=orbitals, min_sites=min_sites))
